@@ -181,16 +181,31 @@ func (c *Ctx) c10Codec(fm *fsModel, readIndex *ssa.Function, msgT *types.Named, 
 	r, p := c.R, c.P
 	w := fm.writeIdx
 	var encs, decs []*ssa.Call
-	eng.EachInstr(w, func(in ssa.Instruction) {
-		if call, ok := in.(*ssa.Call); ok && eng.CalleeName(call.Common()) == "(*encoding/gob.Encoder).Encode" {
-			encs = append(encs, call)
+	inPkg := func(root *ssa.Function) []*ssa.Function {
+		var out []*ssa.Function
+		for fn := range p.SyncReach(root) {
+			if eng.FuncPkgPath(fn) == eng.Mod+"/"+fileRel {
+				out = append(out, fn)
+			}
 		}
-	})
-	eng.EachInstr(readIndex, func(in ssa.Instruction) {
-		if call, ok := in.(*ssa.Call); ok && eng.CalleeName(call.Common()) == "(*encoding/gob.Decoder).Decode" {
-			decs = append(decs, call)
-		}
-	})
+		sortFuncs(out)
+		return out
+	}
+	wFns, rFns := inPkg(w), inPkg(readIndex)
+	for _, fn := range wFns {
+		eng.EachInstr(fn, func(in ssa.Instruction) {
+			if call, ok := in.(*ssa.Call); ok && eng.CalleeName(call.Common()) == "(*encoding/gob.Encoder).Encode" {
+				encs = append(encs, call)
+			}
+		})
+	}
+	for _, fn := range rFns {
+		eng.EachInstr(fn, func(in ssa.Instruction) {
+			if call, ok := in.(*ssa.Call); ok && eng.CalleeName(call.Common()) == "(*encoding/gob.Decoder).Decode" {
+				decs = append(decs, call)
+			}
+		})
+	}
 	argT := func(call *ssa.Call) types.Type {
 		a := call.Call.Args[1]
 		if mi, ok := a.(*ssa.MakeInterface); ok {
@@ -201,6 +216,8 @@ func (c *Ctx) c10Codec(fm *fsModel, readIndex *ssa.Function, msgT *types.Named, 
 	var probs []string
 	if len(encs) != 2 || len(decs) != 2 {
 		probs = append(probs, fmt.Sprintf("expected 2 Encode sites (name, message) and 2 Decode sites, found %d and %d", len(encs), len(decs)))
+	} else if encs[0].Parent() != encs[1].Parent() || decs[0].Parent() != decs[1].Parent() {
+		probs = append(probs, "the name and message records are encoded (or decoded) in different functions: their order cannot be decided")
 	} else {
 		sort.Slice(encs, func(i, j int) bool { return eng.Dominates(encs[i], encs[j]) })
 		sort.Slice(decs, func(i, j int) bool { return eng.Dominates(decs[i], decs[j]) })
@@ -233,7 +250,7 @@ func (c *Ctx) c10Codec(fm *fsModel, readIndex *ssa.Function, msgT *types.Named, 
 	}
 	// mb.name = name after decoding
 	nameSet := false
-	for _, s := range eng.StoresToField([]*ssa.Function{readIndex}, fName) {
+	for _, s := range eng.StoresToField(rFns, fName) {
 		_ = s
 		nameSet = true
 	}
@@ -357,14 +374,45 @@ func (c *Ctx) c10NoMemory(pm *pairModel, storeT, mboxT *types.Named, readIndex *
 		v, pol, ok := eng.CondTruth(b, k)
 		return ok && pol && eng.SameField(eng.LoadedField(v), fLoaded)
 	}
-	isRead := func(in ssa.Instruction) bool {
-		call, ok := in.(*ssa.Call)
-		return ok && eng.StaticCallee(call.Common()) == readIndex
-	}
+	var isRead eng.Pred
 	guarded := map[*ssa.Function]bool{}
 	accesses := map[*ssa.Function][]ssa.Instruction{}
+	// loaders: functions every one of whose paths to a return loads the index (calls
+	// readIndex or another loader), bypassing only on the indexLoaded==true edge
+	loader := map[*ssa.Function]bool{readIndex: true}
+	isLoad := func(in ssa.Instruction) bool {
+		call, ok := in.(*ssa.Call)
+		if !ok {
+			return false
+		}
+		g := eng.StaticCallee(call.Common())
+		return g != nil && loader[g]
+	}
+	for changed := true; changed; {
+		changed = false
+		for _, fn := range pkgFuncs(p, fileRel) {
+			if loader[fn] || len(fn.Blocks) == 0 {
+				continue
+			}
+			has := false
+			eng.EachInstr(fn, func(in ssa.Instruction) {
+				if isLoad(in) {
+					has = true
+				}
+			})
+			if !has {
+				continue
+			}
+			if (&eng.Search{Target: eng.IsReturn, Avoid: isLoad,
+				Edge: func(b *ssa.BasicBlock, k int) bool { return !loadedTrueEdge(b, k) }}).FromEntry(fn) == nil {
+				loader[fn] = true
+				changed = true
+			}
+		}
+	}
+	isRead = isLoad
 	for _, fn := range pkgFuncs(p, fileRel) {
-		if fn == readIndex {
+		if pm.onLoadPath(fn, readIndex) {
 			continue
 		}
 		fn := fn
@@ -613,6 +661,47 @@ func (c *Ctx) c10Paths() {
 		return
 	}
 	a, b := fields(byName, hashA), fields(byHash, hashB)
+	if len(a) == 0 {
+		// the by-name constructor may delegate: return mboxFromHash(HashMailboxName(name))
+		var deleg *ssa.Call
+		eng.EachInstr(byName, func(in ssa.Instruction) {
+			if call, ok := in.(*ssa.Call); ok && eng.StaticCallee(call.Common()) == byHash {
+				deleg = call
+			}
+		})
+		i := eng.ParamIndex(hashB)
+		allRet := deleg != nil && i >= 0 && i < len(deleg.Call.Args) && deleg.Call.Args[i] == hashA
+		if allRet {
+			for _, ret := range successReturns(byName) {
+				if len(ret.Results) != 1 || ret.Results[0] != ssa.Value(deleg) {
+					allRet = false
+				}
+			}
+		}
+		if allRet {
+			// and must not overwrite the location fields afterwards
+			eng.EachInstr(byName, func(in ssa.Instruction) {
+				if st, ok := in.(*ssa.Store); ok {
+					if fa, ok := st.Addr.(*ssa.FieldAddr); ok {
+						switch eng.FieldOfAddr(fa).Name() {
+						case "path", "indexPath", "dirName", "RWMutex":
+							allRet = false
+						}
+					}
+				}
+			})
+		}
+		if allRet {
+			for _, f := range []string{"path", "indexPath", "dirName", "RWMutex"} {
+				if b[f] == "" {
+					r.Bad("C10/PATH/agree", "mbox."+f, p.Pos(byHash.Pos()), "field is not set by the by-hash constructor")
+				} else {
+					r.Ok("C10/PATH/agree", "mbox."+f, p.Pos(byHash.Pos()), "by-name constructor returns mboxFromHash(HashMailboxName(name)): both = %s", b[f])
+				}
+			}
+			return
+		}
+	}
 	for _, f := range []string{"path", "indexPath", "dirName", "RWMutex"} {
 		cons := "mbox." + f
 		switch {
